@@ -40,7 +40,8 @@ Inductive ev :=
 | XTick (dt : Z)
 | XInvalidate (id : N) (ret : bool)
 | XInvalidateExpired (ret : Z)
-| XLookupNonExpired (id : N) (found : bool).
+| XLookupNonExpired (id : N) (found : bool)
+| XImport (id tag addr cmd : N).   (* a previously used id registered again: Store, then MapCommand(tag, addr, cmd, id) *)
 
 (* tables of tags, addresses, commands (decimal strings); session duration and lease announced by the servers *)
 Record tables := { t_tags : list str; t_addrs : list str; t_cmds : list str; t_dur : Z; t_lease : Z }.
@@ -182,6 +183,11 @@ Definition step (tb : tables) (st : cache * Z) (e : ev) : option (cache * Z) :=
   | XLookupNonExpired id found =>
       let '(c', r) := lookup_nonexpired c now (sid_of id) in
       if Bool.eqb (match r with Some _ => true | None => false end) found then Some (c', now) else None
+  | XImport id tagi addri cmdi =>
+      match full_of tb (SFullOk id (nth_str (t_cmds tb) cmdi) true) with
+      | FOk fo => Some (store_client_session c now (nth_str (t_tags tb) tagi) (nth_str (t_addrs tb) addri) fo, now)
+      | FFail => None
+      end
   end.
 
 Fixpoint run_steps (tb : tables) (st : cache * Z) (l : list stepobs) : bool :=
